@@ -118,10 +118,19 @@ fn send(s: &mut Server, key: &str, op: &Op) -> Resp {
             Ok(r) => Resp::BulkQuery(r.results.iter().map(|q| q.found).collect()),
             Err(e) => refused(e),
         },
-        Op::Search(q) => match s.search(k, &to_sreq(q)) {
-            Ok(r) => Resp::Search(r.hits.len()),
-            Err(e) => refused(e),
-        },
+        Op::Search(q) => {
+            // a "burst" step sends the same request several times back to back (nothing in between that
+            // could reset a failure counter); the answer judged is the last one
+            let n = SEARCH_BURST.with(|b| b.replace(1)).max(1);
+            let mut last = s.search(k, &to_sreq(q));
+            for _ in 1..n {
+                last = s.search(k, &to_sreq(q));
+            }
+            match last {
+                Ok(r) => Resp::Search(r.hits.len()),
+                Err(e) => refused(e),
+            }
+        }
         Op::BulkSearch(v) => {
             let reqs: Vec<SearchReq> = rl_expand(v).iter().map(to_sreq).collect();
             match s.bulk_search(k, &reqs) {
@@ -229,6 +238,10 @@ struct Obs {
     probe: Option<Result<usize, String>>,
 }
 
+thread_local! {
+    static SEARCH_BURST: std::cell::Cell<u64> = const { std::cell::Cell::new(1) };
+}
+
 fn run_script(sc: &Script) -> Result<(Vec<Obs>, f64), String> {
     let mut o = ServerOpts::new("C15", &sc.name);
     o.tenants = vec![TenantSpec::new("acme")];
@@ -266,6 +279,7 @@ fn run_script(sc: &Script) -> Result<(Vec<Obs>, f64), String> {
         let t = std::time::Instant::now();
         let f0 = fired.load(Ordering::SeqCst);
         deadline.store(t0.elapsed().as_millis() as u64 + STEP_TIMEOUT_MS, Ordering::SeqCst);
+        SEARCH_BURST.with(|b| b.set(if st.label.1.ends_with("-burst") { 5 } else { 1 }));
         let resp = send(&mut s, &key, &st.op);
         deadline.store(0, Ordering::SeqCst);
         pid.store(s.pid().unwrap_or(0) as u64, Ordering::SeqCst);
